@@ -53,6 +53,27 @@ def body_factory(tier, seed):
                                   len(hs), [w[:3] for w in ws], len(afters)),
                               {"kind": "slow-handler", "version": version, "routes": [slow], "frames": frames,
                                "response_timeout": 0.01, "observation": seq, "ended": how})
+        # one endpoint, several CALLs: an asynchronous after-hook that fails (or is slow) must not keep the hooks of later
+        # CALLs from running -- each hook runs exactly once for its own CALL
+        for version in ("1.6", "2.0.1"):
+            for out in (("other", "RuntimeError", "hook failed"), ("ocpp", "GenericError", None, None), ("ret",)):
+                bad_hook = g.route("Heartbeat", ("ret", {"current_time": "t"}), after=out, after_async=True)
+                bad_hook.pop("after_first", None)
+                good = g.route("Reset", ("ret", {"status": "Accepted"}), after=("ret",), after_async=True)
+                good.pop("after_first", None)
+                reset = '{"type":"Hard"}' if version == "1.6" else '{"type":"Immediate"}'
+                frames = ['[2,"h1","Heartbeat",{}]', '[2,"r1","Reset",%s]' % reset, '[2,"h2","Heartbeat",{}]', '[2,"r2","Reset",%s]' % reset,
+                          '[2,"r3","Reset",%s]' % reset]
+                seq, how = D.observe_loop(version, [bad_hook, good], frames, "closed", False, linger=0.02)
+                rep.count("hook-sequence:%s:%s" % (version, out[0]))
+                afters = [e[1] for e in seq if e[0] == "after"]
+                want = sorted([bad_hook["after"]["name"]] * 2 + [good["after"]["name"]] * 3)
+                if sorted(afters) != want:
+                    rep.violation("C07:hook-sequence:%s:%s" % (version, out[0]),
+                                  "five CALLs on one endpoint, the first action's asynchronous after-hook ends with %r: hooks that ran: %r, "
+                                  "expected each CALL's hook once (%r)" % (out[:2], afters, want),
+                                  {"kind": "hook-sequence", "version": version, "routes": [bad_hook, good], "frames": frames,
+                                   "observation": seq, "ended": how})
         for c in (cases[25], cases[len(cases) // 2], cases[-1]):
             rep.sample({"stratum": c[0], "version": c[1], "frame": str(c[3])[:200]})
     return body
@@ -69,6 +90,19 @@ def run(rep, tier, seed):
 def replay(d):
     if d.get("kind") == "repeat":
         return GD.replay_repeat(d)
+    if d.get("kind") == "hook-sequence":
+        from harness import impl_dispatch as D
+        routes = d["routes"]
+        for r in routes:
+            for k in ("on", "after"):
+                if r.get(k):
+                    r[k]["out"] = tuple(r[k]["out"])
+        seq, how = D.observe_loop(d["version"], routes, d["frames"], "closed", False, linger=0.02)
+        afters = [e[1] for e in seq if e[0] == "after"]
+        print("hooks that ran:", afters)
+        ok = len(afters) == len(d["frames"])
+        print("HOLDS" if ok else "FAILS")
+        return 0 if ok else 1
     if d.get("kind") == "slow-handler":
         from harness import impl_dispatch as D
         routes = d["routes"]
